@@ -304,7 +304,7 @@ def reload_record(cfg_type: type, cfg: Any, names: list[str], how: str, loader: 
     a, b = _ids(orig, re_)
     diff = [n for n, x, y in zip(names, a, b) if x != y] if not err else []
     try:
-        dump = cfg.model_dump_json()[:1500]
+        dump = cfg.model_dump_json()[:6000]
     except Exception as e:  # noqa: BLE001
         dump = f"(model_dump_json failed: {type(e).__name__})"
     return {"rec": {"kind": "reload", "orig": a, "re": b, "err": err},
